@@ -655,7 +655,9 @@ func (s *BgpServer) prePolicyFilterpath(peer *peer, path, old *table.Path) (*tab
 
 	// replace-peer-as handling
 	if path != nil && !path.IsWithdraw && conf.AsPathOptions.State.ReplacePeerAs {
-		path = path.ReplaceAS(conf.Config.LocalAs, conf.Config.PeerAs)
+		// the peer's AS as learned from its OPEN: Config.PeerAs is 0 for a
+		// neighbor configured without peer-as (e.g. an unnumbered one).
+		path = path.ReplaceAS(conf.Config.LocalAs, conf.State.PeerAs)
 	}
 
 	if path = filterpath(peer, path, old); path == nil {
